@@ -171,3 +171,41 @@ Ltac bool_lia :=
   rewrite ?andb_true_iff, ?orb_true_iff, ?negb_true_iff, ?andb_false_iff, ?orb_false_iff,
           ?Z.geb_le, ?Z.gtb_lt, ?Z.leb_le, ?Z.ltb_lt, ?Z.eqb_eq, ?Z.leb_gt, ?Z.ltb_ge, ?Z.eqb_neq;
   lia.
+
+(* ---------- l * n, l[-1], l[-1] = v ---------- *)
+Lemma py_list_repeat_single {A} (x : A) n : py_list_repeat [x] n = repeat x (Z.to_nat n).
+Proof. unfold py_list_repeat. induction (Z.to_nat n) as [|k IH]; [reflexivity|]. cbn. rewrite IH. reflexivity. Qed.
+
+(* l[-1] and l[-1] = v on a non-empty list *)
+Lemma py_getitem_last {A} (d : A) l : l <> [] -> py_getitem l (-1) = Ok (last l d).
+Proof.
+  intros Hl. unfold py_getitem, PySem.py_index. pose proof (zlen_nonneg l).
+  assert (Hlen : 1 <= zlen l) by (destruct l; [congruence|rewrite zlen_cons; pose proof (zlen_nonneg l); lia]).
+  replace ((0 <=? -1) && (-1 <? zlen l)) with false by reflexivity.
+  replace ((-1 <? 0) && (0 <=? zlen l + -1)) with true by (symmetry; bool_lia).
+  replace (Z.to_nat (zlen l + -1)) with (length l - 1)%nat by (unfold zlen; lia).
+  rewrite nth_error_nth' with (d := d) by (unfold zlen in Hlen; lia).
+  f_equal. f_equal. clear. induction l as [|a [|b t] IH]; [reflexivity|reflexivity|].
+  cbn [length last]. replace (S (S (length t)) - 1)%nat with (S (length (b :: t) - 1)) by (cbn; lia).
+  cbn [nth]. exact IH.
+Qed.
+
+Lemma upd_last {A} (l : list A) v : l <> [] -> upd l (length l - 1) v = removelast l ++ [v].
+Proof.
+  induction l as [|a l IH]; intros Hl; [congruence|]. destruct l as [|b t]; [reflexivity|].
+  change (length (a :: b :: t) - 1)%nat with (S (length t)).
+  change (removelast (a :: b :: t)) with (a :: removelast (b :: t)).
+  cbn [upd app]. f_equal. specialize (IH ltac:(discriminate)).
+  change (length (b :: t) - 1)%nat with (length t - 0)%nat in IH. rewrite Nat.sub_0_r in IH. exact IH.
+Qed.
+
+Lemma py_setitem_last {A} (l : list A) v : l <> [] -> py_setitem l (-1) v = Ok (removelast l ++ [v]).
+Proof.
+  intros Hl. unfold py_setitem, PySem.py_index.
+  assert (Hlen : 1 <= zlen l) by (destruct l; [congruence|rewrite zlen_cons; pose proof (zlen_nonneg l); lia]).
+  replace ((0 <=? -1) && (-1 <? zlen l)) with false by reflexivity.
+  replace ((-1 <? 0) && (0 <=? zlen l + -1)) with true by (symmetry; bool_lia).
+  replace (Z.to_nat (zlen l + -1)) with (length l - 1)%nat by (unfold zlen; lia).
+  rewrite upd_last by exact Hl. reflexivity.
+Qed.
+
